@@ -30,6 +30,9 @@ def run(c):
         "observed and passed as the `tie` argument; the model uses it only between equal names",
         "file system and xxh3 chunk checksums are trusted: a truncated file is a prefix, a complete chunk is read back intact "
         "(bit flips are C21's subject)",
+        "compaction of METRICS is modelled field by field (SH.Model.CompactMetric) on the value after MetricMetaFromEvent; the JSON "
+        "parser + RestoreCachedInfo and json.Marshal are exercised, not modelled; in the journal model the compact content number is "
+        "still a table column whose fields are tied to the model by the `cf` correspondence",
         "transport and compactJournalEvent are modelled as FUNCTIONS of the event (a table): the harness calls the real functions "
         "7 times per generated content and reports compaction-not-deterministic / transport-not-deterministic if two results differ, "
         "and stored-content-unpredicted if a journal ever holds an event outside the closure computed by those functions",
@@ -43,7 +46,7 @@ def run(c):
     c.prove("SH.Lemmas.Journal", extra_files=["SH/Model/Journal.lean", "SH/Gen/C20.lean"])
     c.prove("SH.Lemmas.JournalConv")
     c.prove("SH.Lemmas.JournalChain")
-    c.prove("SH.Props.C20", extra_files=["SH/Model/Journal.lean", "SH/Model/MetaIndex.lean", "SH/Gen/C20.lean"])
+    c.prove("SH.Props.C20", extra_files=["SH/Model/Journal.lean", "SH/Model/MetaIndex.lean", "SH/Model/CompactMetric.lean", "SH/Gen/C20.lean"])
     drv = c.driver(DRIVER)
     if binary and drv:
         # the minimal histories first (4 of the name-reuse defect, 1 with draft tags through two compact siblings),
@@ -95,7 +98,13 @@ META = {
              "for chains without the compaction skip (non-compact journals); (6b) `load_any_cut` (+ `load_strict_prefix_lv`, `load_err_iff_tail`): a saved "
              "file cut at ANY offset, in particular exactly at a chunk boundary where the read ends without error, reloads into a "
              "journal that is Faithful up to the loaderVersion it reports, and that loaderVersion is the last event read (never the "
-             "header's) whenever events are missing; (7) `two_hop_compact_rollback_counterexample`: for a "
+             "header's) whenever events are missing; (6c) the compact form is MODELLED, no longer an observed input: "
+             "SH.Model.CompactMetric = MakeCompactMetric + keepCompactMetricDescription (description kept for the four remote-config / "
+             "dump names and for marked descriptions) + the event head; `compactForm_idem`, `compactForm_desc_special`, "
+             "`compactForm_ignores`, and `converges_modelled_compact` (a caught-up compact replica holds compactForm of the "
+             "upstream's latest version, for every schedule); for every generated metric content the fields of the real compact event "
+             "are compared with the model's (`cf` lines), and an independent Go reference drives the oracle "
+             "replica-compact-form-differs on synced replicas behind compact journals; (7) `two_hop_compact_rollback_counterexample`: for a "
              "COMPACT aggregator the statement is false of the code (decide witness, replayed on the real chain). The model is "
              "tied to the code by replaying each generated history op by op on real JournalFast/MetricsStorage objects and on the "
              "compiled Lean model and diffing versions, hashes, journal order and all index maps; the hypotheses of (1) about the "
